@@ -12,7 +12,7 @@ from engine.dataflow import target_names, assigned_value, stmt_defs
 from engine.srcmodel import walk_shallow, norm, parent
 from engine.util import call_name, contains, in_body
 from ._c01_util import (loads, load_ids, read_reserved, key_templates, literal_pieces,
-                        dict_key_exprs, template_holes)
+                        dict_key_exprs, template_holes, always_raises)
 from .c01 import r4_fresh_name_generator, _bind_args
 
 PROPERTY = "C05"
@@ -172,7 +172,10 @@ def _mentions(ctx, f, e: ast.AST, names: Set[str]) -> bool:
 
 
 def _raises(body: List[ast.stmt]) -> bool:
-    return bool(body) and isinstance(body[-1], ast.Raise)
+    r = always_raises(body)
+    if r is None:
+        raise AnalysisError(f"C05: the branch starting with `{norm(body[0])}` raises on some of its paths only (unrecognised)")
+    return r
 
 
 def _collision_form(test: ast.AST) -> bool:
